@@ -412,3 +412,38 @@ Example ex_pomcp_coherent :
   trace_ok 2 tr0 /\
   pomcp_coh_session 2 (fun s => Nat.eqb s 3) (1#2) rl_fixed 2 node0 [(PFresh [0; 1] 3, tr0)] = true.
 Proof. cbv zeta. split; [|vm_compute; reflexivity]. unfold trace_ok. repeat (apply Forall_cons; [cbn; lia|]). apply Forall_nil. Qed.
+
+(* ------------------------------------------------- round 6: the discount may change between calls ---- *)
+(* The planners never cache the discount: MCTS::simulate, POMCP::simulate, MDP::rollout and
+   rPOMCP::simulate evaluate model_.getDiscount() when they use it, and the model is held by const
+   reference, so a setDiscount on the model between two sampleAction calls is legal.  A history therefore
+   carries one discount PER CALL ([mcts_session_d] / [pomcp_session_d], C19/ProofsDisc.v); within a call
+   every in-tree backup and every rollout step uses that call's discount (return_is_discounted_sum_*, which
+   is stated per simulation for an arbitrary [disc]).  The rPOMCP theorems action_valid_rpomcp /
+   particles_consistent_full_rpomcp are already per call in [disc]. *)
+From AIT Require Import C19.ProofsDisc.
+
+Theorem tree_consistent_anydisc_mcts : forall A term rl iters d0 s0 h0 tr0 ops,
+  0 < A -> trace_ok A tr0 -> Forall (fun p => trace_ok A (snd p)) ops ->
+  let g := mcts_session_d (fun _ => A) term rl iters node0 ((d0, MFresh s0 h0, tr0) :: ops) in
+  counts_ok g /\ mean_ok g /\ shape_ok A g.
+Proof. exact mcts_anydisc_lemma. Qed.
+Print Assumptions tree_consistent_anydisc_mcts.
+
+Theorem tree_consistent_anydisc_pomcp : forall A term rl iters d0 ps0 h0 tr0 ops,
+  0 < A -> trace_ok A tr0 -> Forall (fun p => trace_ok A (snd p)) ops ->
+  let g := pomcp_session_d A term rl iters node0 ((d0, PFresh ps0 h0, tr0) :: ops) in
+  counts_ok g /\ mean_ok g /\ shape_ok A g.
+Proof. exact pomcp_anydisc_lemma. Qed.
+Print Assumptions tree_consistent_anydisc_pomcp.
+
+(* a history whose discount is lowered from 1 to 1/4 between the two calls *)
+Example ex_pomcp_history_anydisc :
+  let e s a s1 o r := Ev s a s1 o r in
+  let tr0 := [e 0 0 1 1 1%Q; e 1 1 0 0 2%Q; e 0 0 1 1 (-1)%Q; e 1 0 0 1 1%Q] in
+  let tr1 := [e 1 1 0 0 4%Q; e 0 0 1 1 4%Q] in
+  let g := pomcp_session_d 2 (fun s => Nat.eqb s 3) rl_fixed 2 node0
+             [(1%Q, PFresh [0; 1] 2, tr0); ((1#4)%Q, PAdvance 0 1 2 [0], tr1)] in
+  trace_ok 2 tr0 /\ trace_ok 2 tr1 /\ nN g = 3.
+Proof. cbv zeta. split; [unfold trace_ok; repeat (apply Forall_cons; [cbn; lia|]); apply Forall_nil|].
+  split; [unfold trace_ok; repeat (apply Forall_cons; [cbn; lia|]); apply Forall_nil|]. vm_compute. reflexivity. Qed.
